@@ -230,7 +230,34 @@ def run(ctx, out, tier):
     bodies = [b for b in ctx.reachable_bodies() if b.id.startswith("blockwatch::blocks::") or b.id.startswith("<blockwatch::blocks::") or b.id.startswith("bwbin::") or b.id.startswith("blockwatch::flags::") or b.id.startswith("blockwatch::diff_parser::")]
     shared.sh_err(ctx, out, bodies, floor=40)
     shared.sh_main(ctx, out)
+    check_globs_merge(ctx, out)
+    from rules.C02 import check_scan
+    check_scan(ctx, out, rule="C15.scan")
+    from rules.C14 import check_cli_shape
+    check_cli_shape(ctx, out, "C15.cli", {"ignore": "option", "globs": "positional", "list:globs": "positional"})
     return meta()
+
+
+def check_globs_merge(ctx, out, rule="C15.globs"):
+    """Args::globs() compiles the top-level positional globs AND the `list` subcommand's globs; every
+    pattern handed to Glob::new comes from one of the two lists, and both lists reach it."""
+    n = 0
+    cands = [b for b in ctx.reachable_bodies() if b.promoted is None and re.search(r"flags::Args::\w+$", b.id) and "GlobSet" in b.local_ty(0)]
+    for b in cands:
+        for bi, t in b.calls():
+            if callee_matches(t, r"globset::Glob::new$"):
+                labs = ctx.prov.read_operand(b, t["args"][0])
+                top = P.has_path(labs, "globs") and any(lab[2][:1] == ("globs",) for lab in labs)
+                sub = any("command" in lab[2] and "globs" in lab[2] for lab in labs)
+                ign = any(lab[2][:1] == ("ignore",) for lab in labs)
+                if ign and not top and not sub:
+                    n += 1
+                elif top and sub and not ign:
+                    n += 1
+                else:
+                    out.viol(rule, "%s|%s" % (rule, b.name), ctx.where(b, t["span"]),
+                             "the patterns compiled here come from [%s]; expected: the positional globs together with the `list` subcommand's globs (or the --ignore globs alone)" % util.origins_text({l for l in labs if l[0] == "param"}, 6))
+    out.inst(rule, n, 2, [b.id for b in cands], exhaustive=True)
 
 
 def meta():
